@@ -90,7 +90,9 @@ macro "leaf" : tactic => `(tactic| (simp only []; split; (· (split <;> (split <
 macro "tail_tac" : tactic => `(tactic| (
   simp only [afterTag, getCons_set_nil, set_set, decide_eq_true_eq]
   split
-  · rfl
+  · first
+    | rfl
+    | (rename_i hgt; simp [Nat.min_eq_right (Nat.le_of_lt hgt)])   -- the tag written as `data[ofst:ofst_limit]` in the overrun branch
   · split
     · rfl
     · split
